@@ -57,7 +57,7 @@ func (g *fnGen) markMonadicParams() {
 				return true
 			}
 			for i, a := range callArgs(cal, call) {
-				if _, isLit := a.(*ast.FuncLit); isLit {
+				if lit, isLit := a.(*ast.FuncLit); isLit && !litIsTotal(fn.decl, lit) {
 					if cal.monadicParams == nil {
 						cal.monadicParams = map[int]bool{}
 					}
